@@ -139,17 +139,29 @@ def restraint_case(rng):
     meta.dfs = rng.random() < 0.5
     meta.root = rng.choice(keys)
     tree = [(int(a), int(b)) for a, b in meta.search_tree.edges]
-    t, r = rng.sample(keys, 2)
-    avg, d, tol = rng.uniform(0.2, 0.8), rng.uniform(0.3, 5), rng.choice([0.0, 0.1, 0.4])
-    try:
-        set_distance_restraint(meta, t, r, d, avg, tol)
+    # one to three restraints on the same molecule: entries accumulate per residue
+    specs = []
+    out = []
+    avg = rng.uniform(0.2, 0.8)
+    failed = False
+    for _ in range(rng.choice([1, 1, 2, 3])):
+        t, r = rng.sample(keys, 2)
+        d, tol = rng.uniform(0.3, 5), rng.choice([0.0, 0.1, 0.4])
+        specs.append((t, r, d, tol))
+        try:
+            set_distance_restraint(meta, t, r, d, avg, tol)
+        except (OSError, KeyError):   # the message template of the OSError itself raises KeyError(' ')
+            failed = True
+            break
+    if failed:
+        out = 'OSError'
+    else:
         out = sorted((int(n), int(e[0]), float(e[1]), float(e[2])) for n in meta.nodes
                      for e in meta.nodes[n].get('distance_restraints', []))
-    except (OSError, KeyError):   # the message template of the OSError itself raises KeyError(' ')
-        out = 'OSError'
-    expr = (f"show (set_distance_restraint of_nat 1%float upper_bound avg_needed_step_length lower_bound {lit(tree)} {lit(t)} {lit(r)} "
-            f"{flit(avg)} {flit(d)} {flit(tol)})")
-    return {'tree': tree, 'target': t, 'ref': r, 'avg': avg, 'd': d, 'tol': tol}, out, expr
+    expr = "[" + "; ".join(
+        f"show (set_distance_restraint of_nat 1%float upper_bound avg_needed_step_length lower_bound {lit(tree)} {lit(t)} {lit(r)} "
+        f"{flit(avg)} {flit(d)} {flit(tol)})" for t, r, d, tol in specs) + "]"
+    return {'tree': tree, 'specs': specs, 'avg': avg}, out, expr
 
 
 RESTR_PRELUDE = """From Coq Require Import PrimFloat Uint63.
@@ -403,25 +415,31 @@ def run(ctx):
         cases = [restraint_case(ctx.rng) for _ in range(ctx.n(300, 3000))]
         res = core.coq_eval_cases(ctx, 'restr', RESTR_PRELUDE, [c[2] for c in cases], chunk=300)
         mism = 0
-        for (inp, out, _), r in zip(cases, res):
-            model = 'OSError' if r is None else sorted((int(n), int(e[0]), float(e[1]), float(e[2])) for n, e in [(x[0], x[1]) for x in r[1]])
+        for (inp, out, _), rs in zip(cases, res):
+            if any(r is None for r in rs):
+                model = 'OSError'
+            else:
+                model = sorted((int(x[0]), int(x[1][0]), float(x[1][1]), float(x[1][2])) for r in rs for x in r[1])
             same = (model == out) if isinstance(out, str) or isinstance(model, str) else (
                 len(model) == len(out) and all(a[:2] == b[:2] and core.close(list(a[2:]), list(b[2:]), 1e-12, 1e-12) for a, b in zip(model, out)))
             ctx.case(json.dumps(inp, sort_keys=True), nontrivial=not isinstance(out, str) and len(out) >= 2,
-                     sample={'tree': inp['tree'], 'target': inp['target'], 'ref': inp['ref'], 'entries': out if isinstance(out, str) else out[:3]})
-            ctx.feature('restraint_' + ('error' if isinstance(out, str) else 'ok'))
+                     sample={'tree': inp['tree'], 'restraints': inp['specs'], 'entries': out if isinstance(out, str) else out[:3]})
+            ctx.feature('restraint_' + ('error' if isinstance(out, str) else f"ok_{len(inp['specs'])}"))
             if not same:
                 mism += 1
                 if mism <= 3:
                     ctx.note(f"correspondence(set_distance_restraint): model {str(model)[:200]} != impl {str(out)[:200]} for {inp}")
                     ctx.extra.setdefault('disagreements', []).append({'input': inp, 'model': model, 'impl': out})
-            # judge the implementation: the restrained end carries [d - tol, d + tol + avg]
+            # judge the implementation: every restrained end carries its window [d - tol, d + tol + avg]
             if not isinstance(out, str):
-                tgt = [e for e in out if abs(e[2] - (inp['d'] + inp['tol'] + inp['avg'])) < 1e-9 and abs(e[3] - (inp['d'] - inp['tol'])) < 1e-9
-                       and e[0] in (inp['target'], inp['ref'])]
-                if not tgt:
-                    ctx.violation('spec', f"set_distance_restraint stored no window [d - tol, d + tol + avg] on the restrained residue: {out}",
-                                  {'restraint_case': inp, 'entries': out})
+                for t, r, d, tol in inp['specs']:
+                    tgt = [e for e in out if abs(e[2] - (d + tol + inp['avg'])) < 1e-9 and abs(e[3] - (d - tol)) < 1e-9
+                           and {e[0], e[1]} == {t, r}]
+                    if not tgt:
+                        ctx.violation('spec', f"after set_distance_restraint the pair ({t},{r}) carries no window [d - tol, d + tol + avg] "
+                                      f"= [{d - tol:.4f}, {d + tol + inp['avg']:.4f}]: entries {out}",
+                                      {'restraint_case': inp, 'entries': out})
+                        break
         ctx.extra['restraint_model'] = {'cases': len(cases), 'mismatches': mism}
         if mism:
             ctx.broken.append('correspondence:set_distance_restraint vs model/Restraints.v')
